@@ -103,25 +103,34 @@ Proof.
 Qed.
 
 (* ---------- resume ---------- *)
+Lemma has_resume_head c id h sn (w : list out) : has_resume (o c (RResume id h) sn :: w).
+Proof. exists id, h. left. reflexivity. Qed.
+
 Lemma resume_outcome cfg c p f s sn :
   let x := step_resume cfg c p f s sn in sm_outcome p s (outs x) (res x) (pst x).
 Proof.
   cbn zeta. unfold step_resume.
-  assert (Hclr : forall (w : list out) r, sm_outcome p s w r (clear_sm p)).
-  { intros w r. left. split; [reflexivity|left; reflexivity]. }
   destruct (f_sm f && negb (str_eqb (p_sm_id p) [])) eqn:E.
-  - destruct s as [|i s']; [apply Hclr|].
-    destruct i; try apply Hclr.
+  - (* a <resume/> is sent *)
+    assert (Hclr : sm_outcome p s [o c (RResume (p_sm_id p) (p_inbound p)) sn] (Err false false) (clear_sm p)).
+    { left. split; [reflexivity|]. split; [left; reflexivity|]. left. left. apply has_resume_head. }
+    assert (Hcut : conn_lost s = true ->
+              sm_outcome p s [o c (RResume (p_sm_id p) (p_inbound p)) sn] (Err false false) p).
+    { intros Hc. right; right. unfold sm_kept. repeat split.
+      intros _. right. split; [discriminate|left; exact Hc]. }
+    destruct s as [|i s']; [apply Hcut; reflexivity|].
+    destruct i; try apply Hclr; [| |apply Hcut; reflexivity].
     + destruct (str_eqb previd (p_sm_id p)) eqn:Ei; [|apply Hclr].
       right; right. apply str_eqb_eq in Ei. subst previd.
       unfold sm_kept, outs, res, pst. cbn [fst snd]. repeat split.
-      exists [], s'. reflexivity.
+      intros _. left. split; [reflexivity|]. exists [], s'. reflexivity.
     + pose proof (bind_fd cfg c (clear_sm p) f s' [SFailed] eq_refl) as Hfd.
       pose proof (bind_has_bind cfg c (clear_sm p) f s' [SFailed]) as Hb.
       unfold fresh_or_dropped, outs, res, pst in *.
       destruct (step_bind _ _ _ _ _ _) as [[w r] p2]. cbn [fst snd] in *.
       destruct Hfd as [[H Hi]|(H1 & H2 & H3 & H4 & H5)].
-      * left. split; [exact H|left]. destruct Hi as [Hi|Hi]; exact Hi.
+      * left. split; [exact H|]. split; [left; destruct Hi as [Hi|Hi]; exact Hi|].
+        left. left. apply has_resume_head.
       * right; left. unfold sm_fresh. repeat split; try assumption;
           try (apply issued_cons; exact H1); try (rewrite has_bindb_app, Hb; apply orb_true_r).
         apply has_enable_app_r. exact H5.
@@ -131,21 +140,36 @@ Proof.
     + cbn in E. apply negb_false_iff in E. apply str_eqb_eq in E.
       specialize (Hfd E). unfold fresh_or_dropped in Hfd.
       destruct Hfd as [[H Hi]|(H1 & H2 & H3 & H4 & H5)].
-      * left. split; [exact H|]. destruct Hi as [Hi|Hi]; [left; exact Hi|right; split; assumption].
+      * left. split; [exact H|]. split.
+        -- destruct Hi as [Hi|Hi]; [left; exact Hi|right; split; assumption].
+        -- left. right. exact Hb.
       * right; left. repeat split; assumption.
     + specialize (Hfd eq_refl). unfold fresh_or_dropped in Hfd.
       destruct Hfd as [[H Hi]|(H1 & H2 & H3 & H4 & H5)].
-      * left. split; [exact H|left]. destruct Hi as [Hi|Hi]; exact Hi.
+      * left. split; [exact H|]. split; [left; destruct Hi as [Hi|Hi]; exact Hi|]. left. right. exact Hb.
       * right; left. repeat split; assumption.
 Qed.
 
 (* ---------- lifting through what precedes the resume step ---------- *)
+Lemma has_resume_app_r a b : has_resume b -> has_resume (a ++ b).
+Proof. intros (x & h & H). exists x, h. rewrite reqs_app'. apply in_or_app. right. exact H. Qed.
+
+Lemma unanswered_app pre s :
+  (conn_lost s = true -> unanswered (pre ++ s)) -> unanswered s -> unanswered (pre ++ s).
+Proof.
+  intros Hc [H|(a & f & rest & -> & Hr)]; [exact (Hc H)|].
+  right. exists (pre ++ a), f, rest. rewrite app_assoc. split; [reflexivity|exact Hr].
+Qed.
+
 Lemma outcome_lift p pre_s pre_w s w r p1 :
   has_bindb pre_w = false -> (forall prev h, ~ In (RResume prev h) (reqs pre_w)) ->
+  (conn_lost s = true -> unanswered (pre_s ++ s)) ->
   sm_outcome p s w r p1 -> sm_outcome p (pre_s ++ s) (pre_w ++ w) r p1.
 Proof.
-  intros Hb Hr [H|[(H1 & H2 & H3 & H4 & H5 & H6)|(H1 & H2 & H3 & H4 & H5)]].
-  - left. exact H.
+  intros Hb Hr Hun [(H1 & H2 & H3)|[(H1 & H2 & H3 & H4 & H5 & H6)|(H1 & H2 & H3 & H4 & H5)]].
+  - left. split; [exact H1|]. split; [exact H2|].
+    destruct H3 as [[H3|H3]|H3]; [left; left; apply has_resume_app_r; exact H3| |right; exact H3].
+    left; right. rewrite has_bindb_app, H3. apply orb_true_r.
   - right; left. unfold sm_fresh. repeat split; try assumption;
       try (apply issued_app; exact H1); try (rewrite has_bindb_app, H5; apply orb_true_r).
     apply has_enable_app_r. exact H6.
@@ -156,7 +180,9 @@ Proof.
       - exists prev, h. exact Hin. }
     unfold sm_kept. split; [exact H1|]. split; [exact H2|]. split; [exact H3|].
     split; [rewrite has_bindb_app, Hb, H4; reflexivity|].
-    intros Hh. apply Hres in Hh. destruct (H5 Hh) as [Hok Hc]. split; [exact Hok|apply confirmed_app; exact Hc].
+    intros Hh. apply Hres in Hh. destruct (H5 Hh) as [[Hok Hc]|[Hne Hu]].
+    + left. split; [exact Hok|apply confirmed_app; exact Hc].
+    + right. split; [exact Hne|apply unanswered_app; assumption].
 Qed.
 
 Lemma outcome_same q p s w r p1 :
@@ -165,7 +191,8 @@ Lemma outcome_same q p s w r p1 :
 Proof.
   intros E1 E2 E3 [H|[H|(H1 & H2 & H3 & H4 & H5)]]; [left|right; left; exact H|right; right].
   - unfold sm_dropped in *. rewrite <- E1, <- E2. exact H.
-  - unfold sm_kept. rewrite <- E1, <- E2, <- E3. repeat split; try assumption; apply H5; assumption.
+  - unfold sm_kept. rewrite <- E1, <- E2, <- E3.
+    split; [exact H1|]. split; [exact H2|]. split; [exact H3|]. split; [exact H4|exact H5].
 Qed.
 
 (* a negotiation that stops before the resume step, leaving the state as it was *)
@@ -174,11 +201,13 @@ Lemma outcome_untouched p s (w : list out) r :
   sm_outcome p s w r p.
 Proof.
   intros Hb Hr. right; right. unfold sm_kept. repeat split; try reflexivity; try exact Hb.
-  - destruct H as (prev & h & Hin). exfalso. exact (Hr prev h Hin).
-  - destruct H as (prev & h & Hin). exfalso. exact (Hr prev h Hin).
+  intros (prev & h & Hin). exfalso. exact (Hr prev h Hin).
 Qed.
 
 Ltac no_resume := let H := fresh in intros ? ? H; cbn in H; repeat (destruct H as [H|H]; [discriminate|]); exact H.
+
+Lemma cut_after_features pre f s : conn_lost s = true -> unanswered ((pre ++ [SFeatures f]) ++ s).
+Proof. intros H. right. exists pre, f, s. rewrite <- app_assoc. split; [reflexivity|exact H]. Qed.
 
 Lemma auth_outcome cfg c p f s sn :
   let x := step_auth cfg c p f s sn in sm_outcome p s (outs x) (res x) (pst x).
@@ -196,7 +225,8 @@ Proof.
   cbn [read_features].
   pose proof (resume_outcome cfg c p f0 s3 [SHeader id; SFeatures f0]) as H. cbn zeta in H.
   unfold outs, res, pst in *. destruct (step_resume _ _ _ _ _ _) as [[w r] p2]. cbn [fst snd] in *.
-  apply (outcome_lift p [SSuccess; SHeader id; SFeatures f0] _ s3 w r p2); [reflexivity|no_resume|exact H].
+  apply (outcome_lift p [SSuccess; SHeader id; SFeatures f0] _ s3 w r p2); [reflexivity|no_resume| |exact H].
+  apply (cut_after_features [SSuccess; SHeader id] f0 s3).
 Qed.
 
 Lemma connect_outcome cfg dial tls p s :
@@ -204,25 +234,28 @@ Lemma connect_outcome cfg dial tls p s :
 Proof.
   cbn zeta. unfold connect.
   destruct (negb dial); [apply outcome_untouched; [reflexivity|no_resume]|].
-  destruct s as [|i s1].
-  { apply (outcome_same (set_flags p false (p_tls_enabled p))); try reflexivity.
-    apply outcome_untouched; [reflexivity|no_resume]. }
-  destruct i; try (apply (outcome_same (set_flags p false (p_tls_enabled p))); try reflexivity;
-                   apply outcome_untouched; [reflexivity|no_resume]).
+  assert (Hkeep0 : forall q (w : list out) r, p_sm_id q = p_sm_id p -> p_inbound q = p_inbound p ->
+            p_has_queue q = p_has_queue p -> has_bindb w = false ->
+            (forall prev h, ~ In (RResume prev h) (reqs w)) ->
+            sm_outcome p s w r q).
+  { intros q w r E1 E2 E3 Hb Hr. apply (outcome_same q); try assumption.
+    apply outcome_untouched; assumption. }
+  destruct s as [|i s1]; [apply Hkeep0; try reflexivity; no_resume|].
+  destruct i; try (apply Hkeep0; try reflexivity; no_resume).
   cbn [read_header].
-  destruct s1 as [|i1 s2]; [left; split; [reflexivity|left; reflexivity]|].
-  destruct i1; try (left; split; [reflexivity|left; reflexivity]).
+  destruct s1 as [|i1 s2]; [apply Hkeep0; try reflexivity; no_resume|].
+  destruct i1; try (apply Hkeep0; try reflexivity; no_resume).
   cbn [read_features].
   set (pa := set_flags (set_flags p false (p_tls_enabled p)) false false).
-  assert (Hauth : forall chan q ff ss sn pre_s (pre_w : list out),
+  assert (Hauth : forall chan q ff ss sn pre (pre_w : list out),
             p_sm_id q = p_sm_id p -> p_inbound q = p_inbound p -> p_has_queue q = p_has_queue p ->
             has_bindb pre_w = false -> (forall prev h, ~ In (RResume prev h) (reqs pre_w)) ->
             forall w r p2, step_auth cfg chan q ff ss sn = (w, r, p2) ->
-            sm_outcome p (pre_s ++ ss) (pre_w ++ w) r p2).
-  { intros chan q ff ss sn pre_s pre_w E1 E2 E3 Hb Hr w r p2 E.
+            sm_outcome p ((pre ++ [SFeatures ff]) ++ ss) (pre_w ++ w) r p2).
+  { intros chan q ff ss sn pre pre_w E1 E2 E3 Hb Hr w r p2 E.
     pose proof (auth_outcome cfg chan q ff ss sn) as H. cbn zeta in H.
     unfold outs, res, pst in H. rewrite E in H. cbn [fst snd] in H.
-    apply outcome_lift; [exact Hb|exact Hr|]. eapply outcome_same; eassumption. }
+    apply outcome_lift; [exact Hb|exact Hr|apply cut_after_features|]. eapply outcome_same; eassumption. }
   assert (Hkeep : forall q (w : list out) r, p_sm_id q = p_sm_id p -> p_inbound q = p_inbound p ->
             p_has_queue q = p_has_queue p -> has_bindb w = false ->
             (forall prev h, ~ In (RResume prev h) (reqs w)) ->
@@ -230,18 +263,16 @@ Proof.
   { intros q w r E1 E2 E3 Hb Hr. apply (outcome_same q); try assumption.
     apply outcome_untouched; assumption. }
   destruct (f_tls f).
-  - destruct (c_insecure cfg); [|left; split; [reflexivity|left; reflexivity]].
+  - destruct (c_insecure cfg); [|apply Hkeep; try reflexivity; no_resume].
     destruct (step_auth _ _ _ _ _ _) as [[w r] p2] eqn:E. unfold outs, res, pst. cbn [fst snd].
-    apply (Hauth _ _ _ _ _ [SHeader id; SFeatures f] [o false ROpen []]) in E; try reflexivity; [exact E|no_resume].
+    apply (Hauth _ _ _ _ _ [SHeader id] [o false ROpen []]) in E; try reflexivity; [exact E|no_resume].
   - destruct s2 as [|i2 s3].
-    { cbn [read_proceed]. destruct (c_insecure cfg); [|left; split; [reflexivity|left; reflexivity]].
-      unfold outs, res, pst. cbn [fst snd]. apply Hkeep; try reflexivity. no_resume. }
+    { cbn [read_proceed]. destruct (c_insecure cfg); unfold outs, res, pst; cbn [fst snd];
+        apply Hkeep; try reflexivity; no_resume. }
     destruct i2; cbn [read_proceed];
-      try (destruct (c_insecure cfg); [|left; split; [reflexivity|left; reflexivity]];
-           unfold outs, res, pst; cbn [fst snd]; apply Hkeep; try reflexivity; no_resume).
+      try (destruct (c_insecure cfg); unfold outs, res, pst; cbn [fst snd]; apply Hkeep; try reflexivity; no_resume).
     destruct tls.
-    2: { destruct (c_insecure cfg); [|left; split; [reflexivity|left; reflexivity]].
-         unfold outs, res, pst. cbn [fst snd]. apply Hkeep; try reflexivity. no_resume. }
+    2: { destruct (c_insecure cfg); unfold outs, res, pst; cbn [fst snd]; apply Hkeep; try reflexivity; no_resume. }
     destruct s3 as [|i3 s4].
     { unfold outs, res, pst. cbn [fst snd read_header]. apply Hkeep; try reflexivity. no_resume. }
     destruct i3; try (unfold outs, res, pst; cbn [fst snd read_header]; apply Hkeep; try reflexivity; no_resume).
@@ -250,18 +281,16 @@ Proof.
     destruct i4; try (unfold outs, res, pst; cbn [fst snd read_features]; apply Hkeep; try reflexivity; no_resume).
     cbn [read_features].
     destruct (step_auth _ _ _ _ _ _) as [[w r] p2] eqn:E. unfold outs, res, pst. cbn [fst snd].
-    apply (Hauth _ _ _ _ _ [SHeader id; SFeatures f; SProceed; SHeader id0; SFeatures f0]
+    apply (Hauth _ _ _ _ _ [SHeader id; SFeatures f; SProceed; SHeader id0]
              (([o false ROpen []] ++ [o false RStartTls [SHeader id; SFeatures f]]) ++ [o true ROpen [SProceed]])) in E;
       try reflexivity; [exact E|no_resume].
   - destruct s2 as [|i2 s3].
-    { cbn [read_proceed]. destruct (c_insecure cfg); [|left; split; [reflexivity|left; reflexivity]].
-      unfold outs, res, pst. cbn [fst snd]. apply Hkeep; try reflexivity. no_resume. }
+    { cbn [read_proceed]. destruct (c_insecure cfg); unfold outs, res, pst; cbn [fst snd];
+        apply Hkeep; try reflexivity; no_resume. }
     destruct i2; cbn [read_proceed];
-      try (destruct (c_insecure cfg); [|left; split; [reflexivity|left; reflexivity]];
-           unfold outs, res, pst; cbn [fst snd]; apply Hkeep; try reflexivity; no_resume).
+      try (destruct (c_insecure cfg); unfold outs, res, pst; cbn [fst snd]; apply Hkeep; try reflexivity; no_resume).
     destruct tls.
-    2: { destruct (c_insecure cfg); [|left; split; [reflexivity|left; reflexivity]].
-         unfold outs, res, pst. cbn [fst snd]. apply Hkeep; try reflexivity. no_resume. }
+    2: { destruct (c_insecure cfg); unfold outs, res, pst; cbn [fst snd]; apply Hkeep; try reflexivity; no_resume. }
     destruct s3 as [|i3 s4].
     { unfold outs, res, pst. cbn [fst snd read_header]. apply Hkeep; try reflexivity. no_resume. }
     destruct i3; try (unfold outs, res, pst; cbn [fst snd read_header]; apply Hkeep; try reflexivity; no_resume).
@@ -270,7 +299,7 @@ Proof.
     destruct i4; try (unfold outs, res, pst; cbn [fst snd read_features]; apply Hkeep; try reflexivity; no_resume).
     cbn [read_features].
     destruct (step_auth _ _ _ _ _ _) as [[w r] p2] eqn:E. unfold outs, res, pst. cbn [fst snd].
-    apply (Hauth _ _ _ _ _ [SHeader id; SFeatures f; SProceed; SHeader id0; SFeatures f0]
+    apply (Hauth _ _ _ _ _ [SHeader id; SFeatures f; SProceed; SHeader id0]
              (([o false ROpen []] ++ [o false RStartTls [SHeader id; SFeatures f]]) ++ [o true ROpen [SProceed]])) in E;
       try reflexivity; [exact E|no_resume].
 Qed.
